@@ -211,6 +211,7 @@ fn do_dispatch(sim: &Rc<Sim>, lp: &mut Option<EventLoop<'static, Tag>>, t: Timeo
             s.pe_this_dispatch = 0;
             s.excused = false;
         }
+        crate::life::dispatch_start(&mut st);
     }
     let mut tag = Tag(sim.tag);
     let r = catch_unwind(AssertUnwindSafe(|| l.dispatch(timeout_of(t), &mut tag)));
@@ -228,14 +229,22 @@ fn do_dispatch(sim: &Rc<Sim>, lp: &mut Option<EventLoop<'static, Tag>>, t: Timeo
     }
 }
 
+thread_local! {
+    pub static LAST_PANIC_LOC: std::cell::RefCell<String> = const { std::cell::RefCell::new(String::new()) };
+}
+
 pub fn panic_msg(p: &Box<dyn std::any::Any + Send>) -> String {
-    if let Some(s) = p.downcast_ref::<&str>() {
+    let m = if let Some(s) = p.downcast_ref::<&str>() {
         s.to_string()
     } else if let Some(s) = p.downcast_ref::<String>() {
         s.clone()
     } else {
         "<non-string panic>".into()
-    }
+    };
+    let loc = LAST_PANIC_LOC.with(|l| l.borrow().clone());
+    // keep only the path below the repository / crate root so that the text is stable
+    let loc = loc.rsplit("/src/").next().map(|s| format!("src/{}", s)).unwrap_or(loc);
+    format!("{} (at {})", m, loc)
 }
 
 /// Earliest deadline among armed timers (model), None if none.
@@ -280,6 +289,10 @@ fn after_dispatch(sim: &Rc<Sim>, t: Timeout, ok: bool, err: Option<String>, t_st
             return;
         }
         sim.probe("dispatch_err_expected");
+    }
+    crate::life::after_dispatch(sim, ok, !waits.is_empty());
+    if sim.is_dead() {
+        return;
     }
     // ---- C12: the wait
     if waits.len() != 1 && (ok || waits.len() > 1) {
@@ -550,6 +563,11 @@ fn compute_must(sim: &Sim) {
                             must.insert(*id, Must::Callback);
                         }
                     }
+                }
+            }
+            K::Life(l) => {
+                if l.pending || l.synth_returned {
+                    must.insert(*id, Must::Callback);
                 }
             }
             K::Failed => {}
@@ -962,7 +980,7 @@ fn step_invariants(sim: &Rc<Sim>, p: &Program, i: usize) {
         }
         if !any_indet {
             let st = sim.st.borrow();
-            let lc = st.lifecycle_expected;
+            let lc = Some(st.srcs.values().filter(|s| s.inserted && s.enabled && matches!(s.k, K::Life(_))).count());
             drop(st);
             if let Some(lc) = lc {
                 if stats.lifecycle_len != lc || stats.lifecycle_distinct != lc {
